@@ -52,7 +52,7 @@ def covers(domain, host):
 
 def plan(tier, seed):
     items = [{"kind": "pairs", "exhaustive": "every (domain form, first target, second target) over 8 domain forms x 10 x 10 hosts"}]
-    n = 8000 if tier == "quick" else 150000
+    n = 8000 if tier == "quick" else 600000
     per = 250 if tier == "quick" else 2500
     for s in range(0, n, per):
         items.append({"kind": "rand", "start": s, "count": per})
